@@ -4245,3 +4245,44 @@ LS_TRACKER_LOAD = dict(
     kwcalls={"cls": ("!src_tracker_init J blank {plate_ids_selected} {losses} {seed}", _TRK,
                      [("plate_ids_selected", "J", None), ("losses", "J", None), ("seed", "J", None)])})
 ALL += [LS_TRACKER_INIT, LS_TRACKER_SAVE, LS_TRACKER_LOAD]
+
+# ---- C03 (gap review g1, C03 gap 2): create_plate_balanced_holdout_set_among_masked_plates once more, this time at the ID / MAPPING level.
+# C11_BALANCED_HOLDOUT gives the two Screen(...) calls a rows-only meaning (screen_without / screen_observed_of forget ids and mappings).
+# Here `screen` is the model Screen (Model/Screen.v: rows, ids, mappings) and the two Screen(...) calls are the translator's keyword calls
+# (C12's _SCREEN_CALL: the model's constructor applied to the keyword arguments THE CALL SITE passes; an argument that is not passed is None), so
+# "both halves receive treatment_mapping=screen.treatment_mapping and sample_mapping=screen.sample_mapping" is read from the source.
+# Trusted per entry: one attribute read / one numpy call each; the loop prims are those of C11_BALANCED_HOLDOUT read on the rows of the screen.
+C03_BALANCED_HOLDOUT = dict(
+    file="src/batchie/retrospective.py", func="create_plate_balanced_holdout_set_among_masked_plates",
+    out="SrcHoldoutIds.v", imports="Model.Encode Model.Screen Model.Reveal Model.Retro Model.RetroHoldout", name="src_balanced_holdout_ids",
+    pyparams=["screen", "fraction", "rng"], overload=True,
+    params=[("num", "Z"), ("den", "positive"), ("counts", "opt list Z"), ("screen", "screen"), ("ds", "list draw")],
+    returns="(screen * screen)", return_state=["ds"],
+    vars={"selection_vector": "bvec", "plate": "bvec", "plate_indices": "list nat", "n_sample": "Z",
+          "downsampled_indices": "list nat", "keep_screen": "screen", "holdout_screen": "screen"},
+    prims=[
+        ("fraction < 0", "num <? 0", "bool"),
+        ("fraction > 1", "Zpos den <? num", "bool"),
+        ("np.zeros(screen.size, dtype=bool)", "repeat false (length (s_rows screen'))", "bvec"),
+        ("screen.plates", "plates_of (s_rows screen')", "list bvec"),
+        ("np.arange(screen.size)[__p.selection_vector]", "vec_indices {p}", "list nat", {"p": "bvec"}),
+        ("__p.is_observed", "vec_observed {p} (s_rows screen')", "bool", {"p": "bvec"}),       # the plates' parent is `screen`
+        ("__p.size", "plate_size {p}", "Z", {"p": "bvec"}),
+        ("~__v", "map negb {v}", "bvec", {"v": "bvec"}),                                  # ~ on a bool array
+        # a[m], boolean-mask indexing along axis 0, at each array type of the Screen attributes
+        ("__a[__m]", "select {m} {a}", "list Z", {"a": "list Z", "m": "bvec"}),
+        ("__a[__m]", "select {m} {a}", "list name", {"a": "list name", "m": "bvec"}),
+        ("__a[__m]", "select {m} {a}", "list bool", {"a": "list bool", "m": "bvec"}),
+        ("__a[__m]", "(fst {a}, select {m} (snd {a}))", "names2d", {"a": "names2d", "m": "bvec"}),
+        ("__a[__m]", "(fst {a}, select {m} (snd {a}))", "doses2d", {"a": "doses2d", "m": "bvec"}),
+        ("np.ones(np.count_nonzero(__v), dtype=bool)", "repeat true (vcount {v})", "list bool", {"v": "bvec"}),
+    ] + _SCREEN_ATTRS,
+    kwcalls=_SCREEN_CALL,
+    state_calls=[
+        ("math.ceil(__n * fraction)", ["counts"], "ceil_count {n} num den counts", "Z", {"n": "Z"}),
+        ("rng.choice(__a, __n, replace=False)", ["ds"], "choose {a} {n} ds", "list nat", {"a": "list nat", "n": "Z"}),
+    ],
+    assign_effects=[("selection_vector[__i] = True", "selection_vector'", "set_true (length (s_rows screen')) {state} {i}")],
+    raises=[("fraction must be between 0 and 1", 5)],
+)
+ALL += [C03_BALANCED_HOLDOUT]
